@@ -730,8 +730,8 @@ def _real(dtype):
     return "float32" if dtype in ("complex64", "float32") else "float64"
 
 
-def _axes(draw, nd, allow_none=True):
-    return draw(A.axes_subset(nd, allow_none=allow_none))
+def _axes(draw, nd, allow_none=True, allow_empty=False):
+    return draw(A.axes_subset(nd, allow_none=allow_none, allow_empty=allow_empty))
 
 
 def _coord(draw, grid, npts_shape, classes=("in", "out", "tie", "int")):
@@ -791,7 +791,7 @@ def g_transpose(draw, s, dt):
 
 
 def g_fft(draw, s, dt):
-    return {"op": draw(st.sampled_from(["FFT", "IFFT"])), "shape": list(s), "axes": _axes(draw, len(s)),
+    return {"op": draw(st.sampled_from(["FFT", "IFFT"])), "shape": list(s), "axes": _axes(draw, len(s), allow_empty=True),
             "center": draw(st.booleans())}
 
 
@@ -869,11 +869,11 @@ def g_resize(draw, s, dt):
 
 
 def g_flip(draw, s, dt):
-    return {"op": "Flip", "shape": list(s), "axes": _axes(draw, len(s))}
+    return {"op": "Flip", "shape": list(s), "axes": _axes(draw, len(s), allow_empty=True)}
 
 
 def g_circshift(draw, s, dt):
-    axes = _axes(draw, len(s))
+    axes = _axes(draw, len(s), allow_empty=True)
     k = len(s) if axes is None else len(axes)
     return {"op": "Circshift", "shape": list(s), "shift": [draw(st.integers(-7, 7)) for _ in range(k)], "axes": axes}
 
